@@ -122,7 +122,7 @@ def cases(spec, ctx):
         else:
             b = G.rand_layout(rng, g, 5, overlap=rng.random() < 0.2)
         yield {"kind": "random", "a": a, "sa": rng.choice(G.STRANDS), "b": b, "sb": rng.choice(G.STRANDS), "genome": g,
-               "parent": rng.choice(["none", "seq", "seq", "mismatch-id", "one-none"]), "seed": rng.randrange(1 << 30)}
+               "parent": rng.choice(["none", "seq", "seq", "mismatch-id", "one-none", "mismatch-type", "mismatch-seq"]), "seed": rng.randrange(1 << 30)}
     if i == 0:
         # all-empty / empty-singleton operands
         yield {"kind": "unary", "blocks": ((3, 3), (5, 5)), "strand": "+", "genome": 8, "parent": "none"}
@@ -146,6 +146,10 @@ def _parent(case, which="a"):
         return G.make_parent("id", pid="chr1" if which == "a" else "chr2")
     if mode == "one-none":
         return G.make_parent("id", pid="chr1") if which == "a" else None
+    if mode == "mismatch-type":     # same id, different sequence type
+        return G.make_parent("id", pid="chr1", seq_type="chromosome" if which == "a" else "plasmid")
+    if mode == "mismatch-seq":      # same id and type, different sequence content (same length)
+        return G.make_parent("seq", genome=("ACGT" if which == "a" else "TGCA") * (g // 4 + 2), pid="chr1")
     raise ValueError(mode)
 
 
